@@ -282,3 +282,30 @@ for fn, types, env, ginit, am in (("solve", {"self": SELF_T}, {"yield": h_yield}
         calls={"solve_one": BS + "solve_one#fix"}, call_ghosts={"solve_one": {"sigma": "sigma", "lv0": "0"}},
         loops={1: dict(fingerprint="while True", also_modifies=am, invariant=FIX_LOOP_INV)},
         ensures=[], tags={"C08": ["C08"], "wf": ["C16"], "C02": ["C08"], "C17": ["C08"], "C01": ["C08"]}, arities=[], timeout_ms=200000)
+
+# ------------------------------------------------------------------ acceptance for arbitrary wake-up masks (solve_one#accp): same delivery obligations as the #acc family
+SOP = REG.contracts[BS + "solve_one#accp"]
+SOP.ensures = SOP.ensures + SO.ensures[-2:]
+SOP.result = "opt:i64[V]"
+SOP_REQ = [(l, selfify(c)) for l, c, _t in SOP.clauses("requires")]
+ACCP_STATE = [x for x in SOP_REQ if x[0].startswith("C08.K") or x[0].startswith("C01.JL")]
+ACCP_LOOP_INV = [x for x in SOP_REQ if x[0] not in dict(WF_STATIC) and x[0] not in ("C02.all_decision", "C08.noalias", "C08.affine_eq_full")]
+for fn, types, env, ginit, am in (("solve", {"self": SELF_T}, {"yield": h_yield_acc}, {"delivered": 0}, ["delivered"]),
+                                  ("solve_and_queue", {"self": SELF_T, "processor_idx": "int", "solution_queue": "opaque"}, {"solution_queue.put": h_put_acc}, {"emitted": "emptylist"}, ["emitted"])):
+    contract(BS + "BacktrackSolver." + fn, variant="accp", types=types, result="none", props=["C01"],
+        requires=SOP_REQ, env=env, ghost_init=ginit, ghost={"sigma": "int[D]"}, defs=[selfify(V_DEF)],
+        calls={"solve_one": BS + "solve_one#accp"}, call_ghosts={"solve_one": {"sigma": "sigma", "lv0": "0"}},
+        loops={1: dict(fingerprint="while True", also_modifies=am, invariant=ACCP_LOOP_INV)},
+        ensures=[], tags={"C01": ["C01"], "C08": ["C01"], "wf": ["C16"], "C02": ["C01"], "C17": ["C01"]}, arities=[], timeout_ms=200000)
+for variant, updater in (("min", "nucs/solvers/solver.py::decrease_max"), ("max", "nucs/solvers/solver.py::increase_min")):
+    base = REG.contracts[BS + "BacktrackSolver.optimize#" + variant]
+    lc = dict(base.loops[1])
+    lc["invariant"] = list(lc["invariant"]) + ACCP_STATE + [
+        ("C01.best_satisfies", f"implies(best_solution is not None and {IS_ASSIGNMENT('best_solution')}, {ALL_HOLD})")]
+    lc.pop("decreases", None)
+    contract(BS + "BacktrackSolver.optimize", variant=variant + "accp", types=base.types, result="none", props=["C01"],
+        requires=list(base.requires) + [x for x in SOP_REQ if x[0] in ("C08.noalias", "C08.affine_eq_full")] + ACCP_STATE + [COVERED], ghost={"sigma": "int[D]"}, defs=[selfify(V_DEF)],
+        calls={"update_domain_fct": updater, "solve_one": BS + "solve_one#accp"}, call_ghosts={"solve_one": {"sigma": "sigma", "lv0": "0"}},
+        loops={1: lc},
+        ensures=[("C01.optimum_satisfies", f"implies(result is not None and {IS_ASSIGNMENT('result')}, {ALL_HOLD})")],
+        tags={"C01": ["C01"], "C08": ["C01"], "C03": ["C01"], "wf": ["C16"], "C02": ["C01"], "C17": ["C01"]}, arities=[], timeout_ms=200000)
